@@ -9,11 +9,39 @@ SEAMS = [
     ("consensus/cluster.go", "func (n *RaftNode) propose(cmd *command) (interface{}, error) {", "func (n *RaftNode) proposeVerifOrig(cmd *command) (interface{}, error) {"),
     ("consensus/snapshot.go", "func (n *RaftNode) attemptToFetchSnapshot(lastSeqNum, lastAppliedVersion uint64) (io.ReadCloser, error) {", "func (n *RaftNode) attemptToFetchSnapshotVerifOrig(lastSeqNum, lastAppliedVersion uint64) (io.ReadCloser, error) {"),
 ]
-for path, old, new in SEAMS:
-    fp = os.path.join(tree, path)
+which = sys.argv[2] if len(sys.argv) > 2 else "consensus"
+if which == "consensus":
+    for path, old, new in SEAMS:
+        fp = os.path.join(tree, path)
+        src = open(fp).read()
+        if src.count(old) != 1:
+            print("INFRA: seam: %r not found exactly once in %s" % (old, path))
+            sys.exit(2)
+        open(fp, "w").write(src.replace(old, new))
+    print("seams: %d definitions renamed" % len(SEAMS))
+    # durable writes of the raft log store get a boundary hook before and after (crash-point enumeration)
+    fp = os.path.join(tree, "consensus/raft_log.go")
     src = open(fp).read()
-    if src.count(old) != 1:
-        print("INFRA: seam: %r not found exactly once in %s" % (old, path))
+    n = 0
+    for name, sig in [("StoreLog", "func (s *raftLog) StoreLog(log *raft.Log) error {"),
+                      ("StoreLogs", "func (s *raftLog) StoreLogs(logs []*raft.Log) error {"),
+                      ("DeleteRange", "func (s *raftLog) DeleteRange(min, max uint64) error {"),
+                      ("Set", "func (s *raftLog) Set(key []byte, val []byte) error {")]:
+        if src.count(sig) != 1:
+            print("INFRA: seam: %r not found exactly once in consensus/raft_log.go" % sig)
+            sys.exit(2)
+        src = src.replace(sig, sig + "\n\tverifBoundary(\"raftlog." + name + ":enter\")\n\tdefer verifBoundary(\"raftlog." + name + ":exit\")")
+        n += 1
+    open(fp, "w").write(src)
+    print("seams: %d raft-log write boundaries hooked" % n)
+elif which == "client":
+    # Go map iteration order is random: the two places where the client walks the shards map of a
+    # /info/shards or redirect body get an order chosen by the harness (harness/client/verif_export.go)
+    fp = os.path.join(tree, "client/client.go")
+    src = open(fp).read()
+    old = "for id, shard := range shards.Shards {"
+    if src.count(old) != 2:
+        print("INFRA: seam: expected 2 iterations over shards.Shards in client/client.go, found %d" % src.count(old))
         sys.exit(2)
-    open(fp, "w").write(src.replace(old, new))
-print("seams: %d definitions renamed" % len(SEAMS))
+    open(fp, "w").write(src.replace(old, "for _, id := range verifShardIDs(shards.Shards) {\n\t\t\tshard := shards.Shards[id]"))
+    print("seams: 2 map iterations ordered")
